@@ -592,3 +592,141 @@ def load_crates(facts_dir):
         if os.path.exists(p):
             out[lab] = Crate(p)
     return out
+
+
+# ----------------------------------------------------------------------------- interprocedural origins
+VALUE_PRESERVING = {
+    "std::ops::Deref::deref", "std::ops::DerefMut::deref_mut", "std::clone::Clone::clone",
+    "std::convert::AsRef::as_ref", "std::borrow::Borrow::borrow", "std::convert::AsMut::as_mut",
+    "std::borrow::BorrowMut::borrow_mut", "std::borrow::ToOwned::to_owned", "std::convert::Into::into",
+    "std::convert::From::from", "std::path::Path::to_path_buf", "std::path::PathBuf::as_path",
+    "std::string::String::as_str", "std::string::ToString::to_string", "std::option::Option::<T>::as_ref",
+    "std::option::Option::<T>::as_deref", "std::option::Option::<&T>::cloned", "std::option::Option::<&T>::copied",
+    "std::path::Path::new", "std::sync::Arc::<T>::new", "std::boxed::Box::<T>::new",
+    "std::string::String::as_mut_str", "std::path::PathBuf::into_boxed_path",
+}
+
+
+def value_preserving(c):
+    return (c.get("fn") in VALUE_PRESERVING) or (c.get("res") in VALUE_PRESERVING)
+
+
+class Origins:
+    """Interprocedural, context-insensitive origin tracing of values.
+    Terms: ('param', fn_id, idx, fields)   -- parameter of a function nobody in the crate calls directly
+           ('call', fn_id, callee, fields) -- result of a non-value-preserving call made in fn_id
+           ('const', repr)                 -- literal
+           ('expr', fn_id, kind)           -- arithmetic etc.
+           ('unknown', why)
+    `fields` is the tuple of (owner, name) field selections still to be applied to the root."""
+
+    def __init__(self, crate, cg, extra_pass=()):
+        self.crate = crate
+        self.cg = cg
+        self.extra_pass = set(extra_pass)
+        # callers: callee id -> [(caller fn, bb, call)]
+        self.callers = defaultdict(list)
+        for f in crate.real_fns():
+            for bb, c in f.calls():
+                if c.get("res_local") and c.get("res") in crate.fns:
+                    self.callers[c["res"]].append((f, bb, c))
+        self._memo = {}
+
+    def passes(self, c):
+        return value_preserving(c) or c.get("res") in self.extra_pass or c.get("fn") in self.extra_pass
+
+    def of_operand(self, fn, op, fields=(), depth=0, stack=frozenset()):
+        if op[0] == "c":
+            c = op[1]
+            return {("const", c.get("s", c.get("v", c.get("fn", c.get("named", c.get("t"))))))}
+        return self.of_place(fn, op[1], fields, depth, stack)
+
+    def of_place(self, fn, place, fields=(), depth=0, stack=frozenset()):
+        l = place_local(place)
+        pf = tuple(proj_fields(place_projs(place)))
+        # closure upvar
+        if l == 1 and fn.kind in ("closure", "coroutine") and pf and pf[0][0].startswith("closure:"):
+            idx = [e[1] for e in place_projs(place) if isinstance(e, list) and e[0] == "f"][0]
+            site = self.crate.closure_sites().get(fn.id)
+            rest = pf[1:] + tuple(fields)
+            if site is not None and idx < len(site[3]):
+                return self.of_operand(site[0], site[3][idx], rest, depth + 1, stack)
+            return {("unknown", "upvar %s of %s" % (pf[0][1], fn.id))}
+        return self.of_local(fn, l, pf + tuple(fields), depth, stack)
+
+    def of_local(self, fn, l, fields=(), depth=0, stack=frozenset()):
+        key = (fn.id, l, tuple(fields))
+        if key in self._memo:
+            return self._memo[key]
+        if key in stack or depth > 60:
+            return set()
+        stack = stack | {key}
+        out = set()
+        ds = fn.defs().get(l, [])
+        if not ds:
+            out.add(("unknown", "no def of _%d in %s" % (l, fn.id)))
+        for d in ds:
+            if d[0] == "arg":
+                callers = self.callers.get(fn.id, [])
+                idx = d[1]
+                if fn.kind in ("closure", "coroutine"):
+                    # parameters of closures: element handed by the callee that runs the closure
+                    out.add(("closure-param", fn.id, idx, tuple(fields)))
+                elif callers:
+                    for cf, _bb, c in callers:
+                        if idx - 1 < len(c["args"]):
+                            out |= self.of_operand(cf, c["args"][idx - 1], fields, depth + 1, stack)
+                else:
+                    out.add(("param", fn.id, idx, tuple(fields)))
+            elif d[0] == "yield":
+                out.add(("unknown", "resume"))
+            elif d[0] == "call":
+                c = d[2]
+                if not isinstance(c["dest"], int):
+                    continue
+                if self.passes(c) and c["args"]:
+                    out |= self.of_operand(fn, c["args"][0], fields, depth + 1, stack)
+                else:
+                    out.add(("call", fn.id, c.get("res") or c.get("fn") or "?", tuple(fields)))
+            else:
+                rv, dst = d[3], d[4]
+                if not isinstance(dst, int):
+                    # field write into the local: only relevant if selecting that field
+                    dfs = tuple(proj_fields(place_projs(dst)))
+                    if fields and dfs and fields[:len(dfs)] == dfs:
+                        sub = fields[len(dfs):]
+                    else:
+                        continue
+                else:
+                    sub = tuple(fields)
+                k = rv[0]
+                if k == "use":
+                    out |= self.of_operand(fn, rv[1], sub, depth + 1, stack)
+                elif k == "ref":
+                    out |= self.of_place(fn, rv[2], sub, depth + 1, stack)
+                elif k == "rawptr":
+                    out |= self.of_place(fn, rv[1], sub, depth + 1, stack)
+                elif k == "cast":
+                    out |= self.of_operand(fn, rv[2], sub, depth + 1, stack)
+                elif k == "agg":
+                    kind = rv[1]
+                    if kind[0] == "adt" and sub:
+                        owner, name = sub[0]
+                        base = kind[1] if owner == kind[1] else None
+                        if owner == kind[1] or owner == "%s::%s" % (kind[1], kind[2]):
+                            if name in kind[3]:
+                                out |= self.of_operand(fn, rv[2][kind[3].index(name)], sub[1:], depth + 1, stack)
+                                continue
+                        out.add(("agg", fn.id, kind[1], sub))
+                    elif kind[0] == "tuple" and sub and sub[0][0] == "tuple":
+                        i = int(sub[0][1])
+                        if i < len(rv[2]):
+                            out |= self.of_operand(fn, rv[2][i], sub[1:], depth + 1, stack)
+                    else:
+                        out.add(("agg", fn.id, kind[1] if len(kind) > 1 else kind[0], sub))
+                elif k == "discr":
+                    out.add(("expr", fn.id, "discr"))
+                else:
+                    out.add(("expr", fn.id, k))
+        self._memo[key] = out
+        return out
